@@ -134,6 +134,17 @@ def run(chk):
         if r != "same":
             chk.violate({"kind": "property", "case": lib.show_case(c), "impl": r[:1500],
                          "explanation": "ParseFile / ParseOne / ParseFileOne do not return the entries that Parse returns for the same changelog"})
+    # the caller's own loop: ParseOne again and again on one bufio.Reader until io.EOF gives what Parse gives - on whole
+    # changelogs and on every kind of damaged one (an error, never a shortened list)
+    lt = texts[::3]
+    lref = impl_docs[::3]
+    lc = [("clloop", [t]) for t in lt]
+    li = chk.run_impl(lc)
+    chk.record("parse-one-loop", lc, li)
+    for c, r, w in zip(lc, li, lref):
+        if r != w:
+            chk.violate({"kind": "property", "case": lib.show_case(c), "impl": r[:800], "parse": w[:800],
+                         "explanation": "a loop of ParseOne over one reader does not return the entries Parse returns"})
     # the source: how the bytes are chunked underneath must not matter - and neither where a 4096-byte buffer fill ends:
     # changelogs of several buffer fills whose first entry is padded so that the entry boundary sweeps over the fill
     # boundary (the whole list must come back: never a silently shortened one)
